@@ -23,6 +23,31 @@ def _minmax_on_empty(prog):
     return False
 
 
+def _minmax_on_empty_misbehaves(prog):
+    """the min/max step over a zero-size array itself (computed alone, unoptimized) raises or has another shape than
+    NumPy's: whatever a consumer of it raises afterwards is the listed min/max defect"""
+    import warnings
+
+    import dask
+
+    try:
+        npenv = P.run_np(prog)
+    except Exception:
+        return False
+    for k, s in enumerate(prog):
+        if s["op"] == "reduce" and s["fn"] in ("max", "min") and npenv[s["args"][0]].size == 0:
+            try:
+                with warnings.catch_warnings():
+                    warnings.simplefilter("ignore")
+                    with dask.config.set({"array.optimize-graph": False}):
+                        got = np.asarray(P.run_da(prog, upto=k + 1)[s["out"]].compute(scheduler="sync"))
+                if got.shape != npenv[s["out"]].shape:
+                    return True
+            except Exception:  # noqa: BLE001
+                return True
+    return False
+
+
 def _take_on_broadcast(prog):
     tags = {}
     for s in prog:
@@ -55,7 +80,7 @@ def _nested_swv(prog):
 def _zero_width_on_broadcast_axis(msg):
     import re
 
-    return "Chunks do not add up to same value" in msg and re.search(r"\((?:1, 0|0, 1)\)", msg) is not None
+    return ("Chunks do not add up to same value" in msg or "Chunks do not add up to shape" in msg) and re.search(r"\((?:1, 0|0, 1)\)", msg) is not None
 
 
 def classify(prog, outcome):
@@ -77,6 +102,8 @@ def classify(prog, outcome):
     if _take_on_broadcast(prog) and ("Chunks do not add up to" in msg or kind == "value"):
         return "take-through-broadcast"
     if _minmax_on_empty(prog) and ("zero-size array to reduction" in msg or kind == "value"):
+        return "minmax-zero-size"
+    if kind == "exc" and _minmax_on_empty(prog) and _minmax_on_empty_misbehaves(prog):
         return "minmax-zero-size"
     if kind == "exc":
         return "raises:" + type(info).__name__
